@@ -12,6 +12,7 @@ import ast
 from fractions import Fraction
 
 from .project import AnalysisError, frac_of_constant, unparse
+from .stencil import NLin, SArr
 
 
 class Vec:
@@ -24,6 +25,17 @@ class Vec:
 
     def comps(self):
         return (self.x, self.y)
+
+
+class KIdx:
+    """generic index of a loop  for i in range(N)  over a symbolic range: i = k + off"""
+    def __init__(self, n, off=0):
+        self.n, self.off = n, off
+
+
+class RangeSym:
+    def __init__(self, n):
+        self.n = n
 
 
 class ElemIndex:
@@ -63,6 +75,13 @@ class SelfObj:
     """abstract `self`: attribute table + concrete class for method resolution"""
     def __init__(self, cls, attrs):
         self.cls = cls
+        self.attrs = attrs
+
+
+class ObjStub:
+    """abstract object with a fixed attribute table (values or python callables)"""
+    def __init__(self, name, attrs):
+        self.name = name
         self.attrs = attrs
 
 
@@ -109,6 +128,8 @@ class Interp:
         self.max_depth = max_depth
         self.ev = Events()
         self.fold_locals = True
+        self._in_primitive = 0     # inside flowdyn._data (the covariant vector primitives)
+        self.stn = None            # stencil.Stn when slice code is analysed
 
     # ------------------------------------------------------------------ entry points
     def call_function(self, func, args, kwargs=None, depth=0):
@@ -134,13 +155,23 @@ class Interp:
             if k not in params:
                 raise AnalysisError("unexpected keyword %s for %s" % (k, func.qualname))
         self.ev.inlined.append(func.qualname)
+        prim = func.module.tail == "_data"
+        if prim:
+            self._in_primitive += 1
         try:
             self.exec_block(func.node.body, env, func, depth)
         except _Return as r:
             self.ev.locals[func.qualname] = env
             return r.value
+        finally:
+            if prim:
+                self._in_primitive -= 1
         self.ev.locals[func.qualname] = env
         return None
+
+    def _noncov(self, item):
+        if not self._in_primitive:
+            self.ev.noncovariant.append(item)
 
     # ------------------------------------------------------------------ statements
     def exec_block(self, stmts, env, func, depth):
@@ -211,6 +242,12 @@ class Interp:
                 env[st.target.id] = ElemIndex(st.target.id)
                 self.exec_block(st.body, env, func, depth)
                 return
+            if isinstance(it, RangeSym):
+                if not isinstance(st.target, ast.Name):
+                    raise AnalysisError("unsupported loop target")
+                env[st.target.id] = KIdx(it.n)
+                self.exec_block(st.body, env, func, depth)
+                return
             if isinstance(it, (list, tuple, range)):
                 if len(it) > 64:
                     raise AnalysisError("loop too long to unroll")
@@ -255,6 +292,22 @@ class Interp:
                     cont[idx] = v
                     return
                 raise AnalysisError("%s:%d unsupported list store" % (func.qualname, target.lineno))
+            if isinstance(cont, SArr):
+                if isinstance(v, Vec):
+                    raise AnalysisError("vector stored into a 1D array")
+                if not isinstance(v, SArr):
+                    v = self.lift(v)
+                if isinstance(idx, slice):
+                    if idx.step is not None:
+                        raise AnalysisError("%s:%d strided slice store" % (func.qualname, target.lineno))
+                    self.stn.assign_slice(cont, idx.start, idx.stop, v)
+                elif isinstance(idx, KIdx):
+                    self.stn.assign_slice(cont, idx.off, NLin.lift(idx.n) + idx.off, v)
+                else:
+                    if isinstance(v, SArr):
+                        raise AnalysisError("%s:%d array stored into one element" % (func.qualname, target.lineno))
+                    self.stn.assign_elem(cont, idx, v)
+                return
             # element store into an abstract array:  arr[c] = v   (arr held in a list slot or name)
             if isinstance(idx, ElemIndex):
                 self.store_back(target.value, v, env, func, depth)
@@ -282,10 +335,10 @@ class Interp:
 
     # ------------------------------------------------------------------ expressions
     def is_num(self, v):
-        return _is_conc(v) or self.dom.is_value(v)
+        return _is_conc(v) or self.dom.is_value(v) or isinstance(v, SArr)
 
     def lift(self, v):
-        if self.dom.is_value(v):
+        if self.dom.is_value(v) or isinstance(v, SArr):
             return v
         if _is_conc(v):
             return self.dom.const(Fraction(v))
@@ -363,6 +416,17 @@ class Interp:
             raise AnalysisError("%s:%d attribute self.%s unknown to the analysis" % (func.qualname, node.lineno, a))
         if isinstance(obj, ModuleRef):
             return ModuleRef(obj.name + "." + a)
+        if isinstance(obj, ObjStub):
+            if a in obj.attrs:
+                return obj.attrs[a]
+            raise AnalysisError("%s:%d attribute %s.%s unknown to the analysis" % (func.qualname, node.lineno, obj.name, a))
+        if isinstance(obj, SArr):
+            if a == "size":
+                return obj.length
+            if a == "ndim":
+                return 1
+            if a == "copy":
+                return ("method", obj, a)
         if a == "ndim":
             if isinstance(obj, Vec):
                 return 2
@@ -422,6 +486,10 @@ class Interp:
     def neg(self, v):
         if _is_conc(v):
             return -v
+        if isinstance(v, NLin):
+            return -v
+        if isinstance(v, SArr):
+            return self.stn.zip_map(lambda x: self.dom.neg(x), v)
         if isinstance(v, Vec):
             return Vec(self.dom.neg(v.x), self.dom.neg(v.y))
         if self.dom.is_value(v):
@@ -473,6 +541,16 @@ class Interp:
             if a is None or b is None or isinstance(a, str) or isinstance(b, str):
                 raise AnalysisError("unsupported comparison")
             return {"<": a < b, "<=": a <= b, ">": a > b, ">=": a >= b}[sym]
+        if isinstance(a, NLin) or isinstance(b, NLin):
+            try:
+                a2, b2 = NLin.lift(a), NLin.lift(b)
+            except AnalysisError:
+                raise AnalysisError("%s:%d unsupported comparison of sizes" % (func.qualname, node.lineno))
+            if sym == "==":
+                return a2 == b2
+            if sym == "!=":
+                return a2 != b2
+            return {"<": a2.lt(b2), "<=": a2.le(b2), ">": b2.lt(a2), ">=": b2.le(a2)}[sym]
         if isinstance(a, LenOf) or isinstance(b, LenOf):
             # size consistency checks (mesh.ncell != nc): assume consistent sizes
             return sym in ("==", "<=", ">=")
@@ -489,6 +567,33 @@ class Interp:
 
     def binop(self, op, a, b, node=None):
         ln = getattr(node, "lineno", 0)
+        if isinstance(a, KIdx) or isinstance(b, KIdx):
+            k, o = (a, b) if isinstance(a, KIdx) else (b, a)
+            if isinstance(o, int) and isinstance(op, ast.Add):
+                return KIdx(k.n, k.off + o)
+            if isinstance(o, int) and isinstance(op, ast.Sub) and k is a:
+                return KIdx(k.n, k.off - o)
+            raise AnalysisError("line %d: unsupported index arithmetic" % ln)
+        if (isinstance(a, NLin) or isinstance(b, NLin)) and not isinstance(a, SArr) and not isinstance(b, SArr):
+            if (isinstance(a, (NLin, int)) or (isinstance(a, Fraction) and a.denominator == 1)) and (isinstance(b, (NLin, int)) or (isinstance(b, Fraction) and b.denominator == 1)):
+                x, y = NLin.lift(a), NLin.lift(b)
+                if isinstance(op, ast.Add):
+                    return x + y
+                if isinstance(op, ast.Sub):
+                    return x - y
+                if isinstance(op, ast.Mult) and (x.is_const() or y.is_const()):
+                    return x * y.b if y.is_const() else y * x.b
+            raise AnalysisError("line %d: non-affine arithmetic on the mesh size" % ln)
+        if isinstance(a, SArr) or isinstance(b, SArr):
+            if isinstance(a, Vec) or isinstance(b, Vec):
+                raise AnalysisError("line %d: vector combined with a 1D array" % ln)
+            x = a if isinstance(a, SArr) else self.lift(a)
+            y = b if isinstance(b, SArr) else (b if isinstance(op, ast.Pow) else self.lift(b))
+            if isinstance(op, ast.Pow):
+                if isinstance(y, SArr):
+                    raise AnalysisError("line %d: array exponent" % ln)
+                return self.stn.zip_map(lambda u: self.binop(op, u, y, node), x)
+            return self.stn.zip_map(lambda u, v: self.binop(op, u, v, node), x, y)
         if _is_conc(a) and _is_conc(b):
             try:
                 if isinstance(op, ast.Add):
@@ -547,12 +652,12 @@ class Interp:
         va, vb = isinstance(a, Vec), isinstance(b, Vec)
         if isinstance(op, ast.Pow):
             if va and _is_conc(b):
-                self.ev.noncovariant.append((ln, "element-wise power of a vector"))
+                self._noncov((ln, "element-wise power of a vector"))
                 return Vec(d.pow(a.x, b), d.pow(a.y, b))
             raise AnalysisError("line %d: unsupported vector power" % ln)
         if va and vb:
             if isinstance(op, (ast.Mult, ast.Div)):
-                self.ev.noncovariant.append((ln, "element-wise product/quotient of two vectors"))
+                self._noncov((ln, "element-wise product/quotient of two vectors"))
             f = {ast.Add: d.add, ast.Sub: d.sub, ast.Mult: d.mul, ast.Div: d.div}.get(type(op))
             if f is None:
                 raise AnalysisError("line %d: unsupported vector operator" % ln)
@@ -561,7 +666,7 @@ class Interp:
         if isinstance(op, (ast.Add, ast.Sub)):
             s = b if va else a
             if not (_is_conc(s) and s == 0):
-                self.ev.noncovariant.append((ln, "scalar added to a vector"))
+                self._noncov((ln, "scalar added to a vector"))
         if va:
             s = self.lift(b)
             f = {ast.Add: d.add, ast.Sub: d.sub, ast.Mult: d.mul, ast.Div: d.div}.get(type(op))
@@ -570,7 +675,7 @@ class Interp:
             return Vec(f(a.x, s), f(a.y, s))
         s = self.lift(a)
         if isinstance(op, ast.Div):
-            self.ev.noncovariant.append((ln, "division by a vector"))
+            self._noncov((ln, "division by a vector"))
         f = {ast.Add: d.add, ast.Sub: d.sub, ast.Mult: d.mul, ast.Div: d.div}.get(type(op))
         if f is None:
             raise AnalysisError("line %d: unsupported vector operator" % ln)
@@ -597,14 +702,24 @@ class Interp:
             if isinstance(idx, slice) and all(x is None or isinstance(x, int) for x in (idx.start, idx.stop, idx.step)):
                 return cont[idx]
             raise AnalysisError("%s:%d unsupported list index" % (func.qualname, ln))
+        if isinstance(cont, SArr):
+            if isinstance(idx, slice):
+                if idx.step is not None:
+                    raise AnalysisError("%s:%d strided slice" % (func.qualname, ln))
+                return self.stn.view(cont, idx.start, idx.stop)
+            if isinstance(idx, KIdx):
+                return self.stn.view(cont, idx.off, NLin.lift(idx.n) + idx.off)
+            if isinstance(idx, (int, NLin)):
+                return self.stn.elem(cont, idx)
+            raise AnalysisError("%s:%d unsupported array index" % (func.qualname, ln))
         if isinstance(cont, Vec):
             if isinstance(idx, tuple) and len(idx) == 2 and isinstance(idx[0], int) and _full_slice(idx[1]):
-                self.ev.noncovariant.append((ln, "component %d of a vector picked" % idx[0]))
+                self._noncov((ln, "component %d of a vector picked" % idx[0]))
                 return cont.comps()[idx[0]]
             if isinstance(idx, tuple) and len(idx) == 2 and _full_slice(idx[0]) and isinstance(idx[1], ElemIndex):
                 return cont
             if isinstance(idx, int):
-                self.ev.noncovariant.append((ln, "component %d of a vector picked" % idx))
+                self._noncov((ln, "component %d of a vector picked" % idx))
                 return cont.comps()[idx]
             raise AnalysisError("%s:%d unsupported vector index" % (func.qualname, ln))
         if self.dom.is_value(cont) or _is_conc(cont):
@@ -628,11 +743,14 @@ class Interp:
             return self.call_function(f, args, kwargs, depth + 1)
         if isinstance(f, OpaqueFn):
             self.ev.opaque_calls.append(f.name)
+            if any(isinstance(a, SArr) for a in args):
+                ops = [a if isinstance(a, SArr) else self.lift(a) for a in args]
+                return self.stn.zip_map(lambda *vals: self.dom.opaque(f.name, list(vals), f.positive), *ops)
             return self.dom.opaque(f.name, [self.lift(a) if self.is_num(a) else a for a in args], f.positive)
         if isinstance(f, tuple) and f and f[0] == "method":
             _, obj, name = f
             if name == "copy":
-                return obj
+                return obj.copy() if isinstance(obj, SArr) else obj
             if name == "append" and isinstance(obj, list):
                 obj.append(args[0])
                 return None
@@ -651,6 +769,11 @@ class Interp:
             return self.eval(lam.body, e2, lfunc, depth + 1)
         if isinstance(f, ModuleRef):
             return self.call_builtin(f.name, args, kwargs, node, func)
+        if callable(f):
+            if any(isinstance(a, SArr) for a in args):
+                ops = [a if isinstance(a, SArr) else self.lift(a) for a in args]
+                return self.stn.zip_map(lambda *vals: f(*vals), *ops)
+            return f(*args, **kwargs)
         raise AnalysisError("%s:%d unsupported call %s" % (func.qualname, ln, unparse(node.func)))
 
     def call_builtin(self, name, args, kwargs, node, func):
@@ -663,10 +786,14 @@ class Interp:
             if base == "len":
                 if isinstance(args[0], (list, tuple)):
                     return len(args[0])
+                if isinstance(args[0], SArr):
+                    return args[0].length
                 return LenOf(args[0])
             if base == "range":
                 if len(args) == 1 and isinstance(args[0], LenOf):
                     return RangeLen(args[0])
+                if len(args) == 1 and isinstance(args[0], NLin) and not args[0].is_const():
+                    return RangeSym(args[0])
                 if all(isinstance(a, int) or (isinstance(a, Fraction) and a.denominator == 1) for a in args):
                     return range(*[int(a) for a in args])
                 raise AnalysisError("%s:%d unsupported range()" % (func.qualname, ln))
@@ -685,6 +812,9 @@ class Interp:
             return self.unary(base, args[0], ln)
         if base in ("minimum", "maximum"):
             return self.binary(base, args[0], args[1], ln)
+        if base == "where" and any(isinstance(x, SArr) for x in args):
+            ops = [x if isinstance(x, SArr) else self.lift(x) for x in args]
+            return self.stn.zip_map(lambda c, a, b: self.merge(c, a, b), *ops)
         if base == "where":
             c, a, b = args
             t = self.truth(c) if not d.is_value(c) else d.truth(c)
@@ -694,6 +824,10 @@ class Interp:
                 return b
             self.ev.where_conditions.append((ln, c))
             return self.merge(c, a, b)
+        if base == "zeros" and args and isinstance(args[0], NLin) and self.stn is not None:
+            return SArr(args[0], [(0, args[0], self.dom.const(0))])
+        if base == "arange" and len(args) == 1 and isinstance(args[0], NLin):
+            return RangeSym(args[0])
         if base in ("zeros", "zeros_like"):
             return 0
         if base == "sum":
@@ -720,8 +854,10 @@ class Interp:
         d = self.dom
         if fn == "absolute":
             fn = "abs"
+        if isinstance(v, SArr):
+            return self.stn.zip_map(lambda x: self.unary(fn, x, ln), v)
         if isinstance(v, Vec):
-            self.ev.noncovariant.append((ln, "element-wise %s of a vector" % fn))
+            self._noncov((ln, "element-wise %s of a vector" % fn))
             return Vec(d.func1(fn, v.x), d.func1(fn, v.y))
         if fn == "abs" and _is_conc(v):
             return abs(v)
@@ -731,6 +867,10 @@ class Interp:
         return d.func1(fn, self.lift(v))
 
     def binary(self, fn, a, b, ln):
+        if isinstance(a, SArr) or isinstance(b, SArr):
+            x = a if isinstance(a, SArr) else self.lift(a)
+            y = b if isinstance(b, SArr) else self.lift(b)
+            return self.stn.zip_map(lambda u, v: self.binary(fn, u, v, ln), x, y)
         if _is_conc(a) and _is_conc(b):
             return min(a, b) if fn == "minimum" else max(a, b)
         if isinstance(a, Vec) or isinstance(b, Vec):
